@@ -33,7 +33,7 @@ def demo_failed(rc, out):
 
 
 def clean(wt):
-    sh("git checkout -q -- . && git clean -fdq -e SEED", wt)
+    sh("git reset -q --hard && git clean -fdq -e SEED", wt)
 
 
 def verify(pid, v):
